@@ -232,7 +232,7 @@ def check(ctx, res) -> None:
     for w, c in writes:
         p = norm(c.args[0])
         readers = [(f, rc) for f, rc in reads if norm(rc.args[0]) == p]
-        src = w.unit.seg(c.args[0])
+        src = ast.unparse(c.args[0])  # normalised text: keys must not depend on quoting/formatting
         tolerant_keys = {i.key for i in res.instances if i.rule == "R18.1" and i.status == "ok"}
         bad = []
         for f, rc in readers:
